@@ -121,15 +121,25 @@ fn normalise(r: &RefInfo) -> RefInfo {
 }
 fn hex(b: &[u8]) -> String { let mut s = String::new(); for x in b.iter().take(400) { s.push_str(&format!("{:02x}", x)); } if b.len() > 400 { s.push_str("..."); } s }
 
+/// a reader over the bytes that gives up (panics) when it is asked again and again at the end of input: a decoder that does not
+/// terminate shows as a failure instead of a stuck run
+struct Guarded<'a> { inner: Cursor<&'a [u8]>, empty_reads: usize }
+impl<'a> Read for Guarded<'a> {
+    fn read(&mut self, buf: &mut [u8]) -> io::Result<usize> {
+        let n = self.inner.read(buf)?;
+        if n == 0 && !buf.is_empty() { self.empty_reads += 1; if self.empty_reads > 100_000 { panic!("decoder does not terminate: it keeps reading at the end of the input"); } }
+        Ok(n)
+    }
+}
 fn real_decode(bytes: &[u8]) -> Result<Result<RefInfo, ()>, ()> {
     let b = bytes.to_vec();
-    panic::catch_unwind(move || match NodeInfo::decode(Cursor::new(&b[..])) { Ok(n) => Ok(view(&n)), Err(_) => Err(()) }).map_err(|_| ())
+    panic::catch_unwind(move || match NodeInfo::decode(Guarded { inner: Cursor::new(&b[..]), empty_reads: 0 }) { Ok(n) => Ok(view(&n)), Err(_) => Err(()) }).map_err(|_| ())
 }
 fn compare(bytes: &[u8], what: &str, failing: &mut usize) {
     let want = ref_decode(bytes);
     let got = real_decode(bytes);
     let bad = match (&want, &got) {
-        (_, Err(())) => Some("panic".to_string()),
+        (_, Err(())) => Some("panic, or the decoder does not terminate".to_string()),
         (Parsed::Unspecified, _) => None,
         (Parsed::Bad, Ok(Err(()))) => None,
         (Parsed::Good(w), Ok(Ok(g))) if w == g => None,
